@@ -273,15 +273,19 @@ class WsTaint:
         self.visited.add(key)
         raw = {param}
         # flow-insensitive but order-aware: walk statements in source order
-        body = sorted([n for n in walk_no_nested(fi.node) if isinstance(n, ast.stmt)], key=lambda n: (n.lineno, n.col_offset))
-        for st in body:
+        from ..model import ordered_stmts
+
+        for st in ordered_stmts(fi.node):
             self._scan_exprs(fi, st, raw, depth)
+            orig = st
+            if isinstance(st, ast.AnnAssign) and st.value is not None:
+                st = ast.copy_location(ast.Assign(targets=[st.target], value=st.value), st)
             if isinstance(st, ast.Assign) and len(st.targets) == 1 and isinstance(st.targets[0], ast.Name):
                 name = st.targets[0].id
                 if self._is_raw(st.value, raw):
-                    if not _under_array_test(fi.node, st, raw):
+                    if not _under_array_test(fi.node, orig, raw):
                         raw.add(name)
-                elif name in raw and not _in_branch(fi.node, st):
+                elif name in raw and not _in_branch(fi.node, orig):
                     raw.discard(name)
                 elif name in raw and self._is_clean_of(st.value, raw):
                     # conditional cleaning (if isinstance(value, str): value = value.strip()): the str paths are clean
@@ -370,7 +374,7 @@ def _under_array_test(fn: ast.AST, st: ast.stmt, raw: set[str]) -> bool:
 
 def _in_branch(fn: ast.AST, st: ast.stmt) -> bool:
     for n in walk_no_nested(fn):
-        if isinstance(n, (ast.If, ast.For, ast.While, ast.Try, ast.With)):
+        if isinstance(n, (ast.If, ast.For, ast.While, ast.Try, ast.With)) and not hasattr(n, "_xsa_inline"):
             for sub in ast.walk(n):
                 if sub is st and sub is not n:
                     return True
